@@ -49,7 +49,9 @@ pub const MENU_ROTATE: u32 = 2;
 pub const MENU_SHUFFLE: u32 = 4;
 pub const MENU_KIND_ASC: u32 = 8;
 pub const MENU_KIND_DESC: u32 = 16;
-pub const MENU_ALL: u32 = 31;
+/// Leaving an event alone is itself one of the options.
+pub const MENU_IDENTITY: u32 = 32;
+pub const MENU_ALL: u32 = 63;
 
 #[derive(Clone, Debug)]
 pub enum Policy {
@@ -319,8 +321,8 @@ fn decide(ctx: &mut SimCtx, site: u64, n: u32, fold_site: bool) -> Decision {
                 return Decision::Identity;
             }
             let mut s = mix2(*seed, u64::from(event));
-            let mut options: Vec<u32> = vec![0];
-            for bit in [MENU_REVERSE, MENU_ROTATE, MENU_SHUFFLE] {
+            let mut options: Vec<u32> = Vec::new();
+            for bit in [MENU_IDENTITY, MENU_REVERSE, MENU_ROTATE, MENU_SHUFFLE] {
                 if menu & bit != 0 {
                     options.push(bit);
                 }
@@ -331,6 +333,9 @@ fn decide(ctx: &mut SimCtx, site: u64, n: u32, fold_site: bool) -> Decision {
                         options.push(bit);
                     }
                 }
+            }
+            if options.is_empty() {
+                return Decision::Identity;
             }
             let pick = options[(splitmix(&mut s) % options.len() as u64) as usize];
             match pick {
